@@ -28,7 +28,7 @@ import PyGqlModel.Lemmas.ValidateChainFrameE1b
 import PyGqlModel.Lemmas.ValidateChainFrameE2
 import PyGqlModel.Lemmas.ValidateChainFrameE2b
 import PyGqlModel.Lemmas.ValidateChainFrameE3
-import PyGqlModel.Lemmas.ValidateChainDecompose3
+import PyGqlModel.Lemmas.ValidateChainDecompose5
 import PyGqlModel.Lemmas.ValidateChainParCongr
 import PyGqlModel.Lemmas.ValidateChainParEq
 namespace PyGql.Props.C06
@@ -173,6 +173,38 @@ theorem chainM_silent_iff_alone (s : SchemaD) (fx : Fixes) (h7 : fx.v7 = true) (
   · rw [silentM_of_ne ho, aloneM_eq_alone (memoFuel d) s fx r ho d]
     rfl
 
+/-- the lone runs of the memoised chain are what `SilentM` speaks about -/
+theorem aloneM_iff_silentM (s : SchemaD) (fx : Fixes) (h7 : fx.v7 = true) (d : Doc) (hw : WfIds d) (r : Rule) :
+    E (visitDocumentPar (enterRuleM (memoFuel d)) ⟨s, fx, [r]⟩ d {}) = 0 ↔ SilentM s fx r d := by
+  by_cases ho : r = .overlappingFieldsCanBeMerged
+  · subst ho
+    rw [silentM_overlap]
+    exact aloneM_overlap s fx h7 d hw
+  · rw [silentM_of_ne ho, aloneM_eq_alone (memoFuel d) s fx r ho d]
+    rfl
+
+/-- **ATTRIBUTION IN THE CHAIN /repo runs, from the lone runs**: if rule `r` alone reports and every other rule alone is
+    silent, then the error list of the chain contains an error OF `r` (it may contain others: a skipping `r` hides nodes
+    from the other members) -/
+theorem chainM_attribution_alone (s : SchemaD) (fx : Fixes) (h7 : fx.v7 = true) (d : Doc) (hw : WfIds d) (r : Rule)
+    (hr : r ∈ Rule.all) (hbad : ¬ SilentM s fx r d) (hothers : ∀ r' ∈ Rule.all, r' ≠ r → SilentM s fx r' d) :
+    0 < countOf (visitDocumentPar (enterRuleM (memoFuel d)) ⟨s, fx, Rule.all⟩ d {}).rs.errs r :=
+  chainPar_attribution (framed_enterRuleM (memoFuel d)) ⟨s, fx, Rule.all⟩ rule_all_nodup d r hr
+    (fun h => hbad ((aloneM_iff_silentM s fx h7 d hw r).mp h))
+    (fun r' hr' hne => (aloneM_iff_silentM s fx h7 d hw r').mpr (hothers r' hr' hne))
+
+/-- **ATTRIBUTION (the property's clause), for the chain /repo runs**: a document that violates the clause of exactly one
+    rule gets, in the error list of `validate_ast`'s chain, an error from the visitor OF THAT RULE. (`r ≠ uniqueFragmentNames`:
+    with a duplicate fragment name NoFragmentCycles may report as well - the visible exception of `attribution_all_memo` -,
+    then an error of one of the two is recorded.) -/
+theorem chainM_attribution (s : SchemaD) (fx : Fixes) (hfx : HeadVars fx) (hs : SchemaOutputs s) (d : Doc)
+    (hd : DocOkM s d) (r : Rule) (hr : r ∈ Rule.all) (hne : r ≠ .uniqueFragmentNames) (hbad : ¬ SpecAll r s fx d)
+    (hothers : ∀ r' ∈ Rule.all, r' ≠ r → SpecAll r' s fx d) :
+    0 < countOf (visitDocumentPar (enterRuleM (memoFuel d)) ⟨s, fx, Rule.all⟩ d {}).rs.errs r := by
+  obtain ⟨h1, h2⟩ := attribution_all_memo s fx hfx hs d hd r hr hbad hothers
+  exact chainM_attribution_alone s fx hfx.2.2.2 d ((wfIdsB_iff d).mp hd.checks.ids) r hr h1
+    (fun r' hr' hne' => h2 r' hr' hne' (fun h => hne h.1))
+
 /-- **the chain /repo runs records no error iff the clauses of all 26 rules hold** - `verdict_iff_all_memo` for the
     chain itself -/
 theorem chainM_silent_iff_spec (s : SchemaD) (fx : Fixes) (hfx : HeadVars fx) (hs : SchemaOutputs s) (d : Doc)
@@ -305,5 +337,18 @@ example : E (visitDocumentPar (enterRuleM (memoFuel (oDocFrag "a"))) ⟨oSchema,
   decide +kernel
 example : ∀ r ∈ Rule.all, SilentM oSchema Fixes.all r (oDocFrag "a") :=
   (chainM_silent_iff_alone oSchema Fixes.all rfl (oDocFrag "a") (by rw [← wfIdsB_iff]; decide)).mp (by decide +kernel)
+
+/-- attribution on the conflicting two-fragment document: only the clause of 5.3.2 fails (evaluated: the other 25 rules are
+    silent alone), and the chain records an error of OverlappingFieldsCanBeMerged -/
+example : 0 < countOf (visitDocumentPar (enterRuleM (memoFuel (oDocFrag "b"))) ⟨oSchema, Fixes.all, Rule.all⟩
+    (oDocFrag "b") {}).rs.errs .overlappingFieldsCanBeMerged :=
+  chainM_attribution_alone oSchema Fixes.all rfl (oDocFrag "b") (by rw [← wfIdsB_iff]; decide) _ (by decide)
+    (by rw [silentM_overlap]; decide +kernel)
+    (by
+      intro r' hr' hne
+      rw [silentM_of_ne hne]
+      revert r' 
+      unfold Silent
+      decide +kernel)
 
 end PyGql.Props.C06
